@@ -47,7 +47,7 @@ func raceC12(args []string) int {
 	deadline := time.Now().Add(budget)
 	done := 0
 	for i := 0; i < n && time.Now().Before(deadline); i++ {
-		c := []int{1, 2, 2, 3, 4, 7}[rng.Intn(6)]
+		c := []int{1, 2, 2, 3, 4, 7, 5, 6, 10}[rng.Intn(9)]
 		cycles := 1 + rng.Intn(3)
 		ty := "i"
 		if rng.Intn(4) == 0 {
